@@ -8,6 +8,11 @@ top levels of generated documents, before and after renaming.
 Direct oracle: every generated document (all libraries, controllers and animations included, well-formed and damaged, with
 foreign-namespace extras) loaded under the 1.4.1 URI, the 1.5 URI and a random URI, as default namespace and with a prefix:
 public snapshots and recorded error classes must be equal.
+Save side: `Collada.save` wraps the namespace-unaware `_save` in namespace moves; translators/ns_wrap.py reads the moves in source order,
+`source_wrapper_is_saveNs` shows they compute `Pyc.Ns.saveNs`, `saveNs_unedited` that an unedited document comes back element by element
+(foreign content in the default namespace included, which is what parking is for; `noPark_moves_foreign_content` is the negative), the
+correspondence runs `Collada._retagNamespace` against `renameNs` on random trees, and the oracle checks on real documents that a save keeps
+the tag of every existing element and creates new elements in the document's namespace.
 """
 import io
 import random
@@ -18,15 +23,17 @@ from vlib import core, snap, docgen
 from props import c19
 
 PID = 'C15'
-TRANSLATORS = ['ns_usage']
+TRANSLATORS = ['ns_usage', 'ns_wrap']
 LEAN_MODULES = ['Pyc.Model.Namespace']
 META = dict(
     level_text=('Proof: Pyc/Props/C15.lean proves by structural induction over the element tree that renaming the root namespace to any URI not '
                 'already used by a foreign element leaves the view of a per-document tagger unchanged (view_rename), hence every loader that is a '
                 'function of that view (load_ns_invariant) - content and recorded errors alike. That the real load-side functions are of this kind is '
                 'checked statically on every run (no_hardwired_tag_in_loaders over the AST-derived table of all 62 load-side functions) and dynamically by '
-                'loading each generated document under three URIs and two serialisations.'),
-    level_note=('Trusted: Lean kernel + standard axioms; translators/ns_usage.py (which functions count as load-side; only direct calls of the module-level tag are seen); '
+                'loading each generated document under three URIs and two serialisations. '
+                'For saving, the statements of Collada.save as read from the source compute saveNs (source_wrapper_is_saveNs), and saveNs returns an unedited document '
+                'unchanged whatever foreign content it embeds (saveNs_unedited, rename_roundtrip).'),
+    level_note=('Trusted: Lean kernel + standard axioms; translators/ns_usage.py, translators/ns_wrap.py (which functions count as load-side; only direct calls of the module-level tag are seen); '
                 'Pyc/Model/Namespace.lean; ElementTree\'s namespace handling. A hard-wired namespace reached through another route than calling tag() would only be '
                 'caught by the dynamic comparison.'),
     technique='Lean 4 structural-induction theorem on namespace renaming + AST-derived table of tag usage + differential loading under several namespace URIs',
@@ -143,6 +150,57 @@ def tree_line(data, newns):
     return 'tree %s ; %s' % (newns, ' '.join(toks))
 
 
+NSPOOL = ['nsD', 'nsX', 'nsF', 'nsG']
+
+
+def retag_case(rng):
+    """a random element tree over a small pool of namespaces: (tokens, ElementTree root)"""
+    toks = []
+
+    def mk(depth):
+        ns = rng.choice(NSPOOL)
+        el = ET.Element('{%s}e%d' % (ns, len(toks)))
+        pos = len(toks)
+        toks.append(None)
+        nk = rng.randint(0, 3) if depth < 3 else 0
+        for _ in range(nk):
+            el.append(mk(depth + 1))
+        toks[pos] = '%s|%s|_|%d' % (ns, el.tag.split('}')[1], nk)
+        return el
+    root = mk(0)
+    return toks, root
+
+
+def ns_order(root):
+    return ','.join(e.tag[1:].split('}')[0] for e in root.iter())
+
+
+def save_keeps_namespaces(data, uri):
+    """direct oracle: Collada.save leaves every element that was in the document in its namespace (foreign content in the 1.4.1 namespace
+    included) and creates new elements in the document's namespace. Returns None or (sig, text)"""
+    import collada
+    data = rename(data, docgen.NS141, uri, False)
+    # foreign content in the 1.4.1 namespace inside this document
+    data = data.replace(b'</COLLADA>', ('<extra><technique profile="OLD"><note xmlns="%s">kept<light id="not-a-light"/></note></technique></extra></COLLADA>'
+                                        % docgen.NS141).encode(), 1)
+    try:
+        d = collada.Collada(io.BytesIO(data))
+    except Exception:
+        return 'skip'
+    before = dict((id(e), (e, e.tag)) for e in d.xmlnode.getroot().iter())
+    try:
+        d.save()
+    except Exception as e:
+        return ('save-raises', 'save of a document under %s raised %s: %s' % (uri, type(e).__name__, e))
+    for e in d.xmlnode.getroot().iter():
+        if id(e) in before:
+            if e.tag != before[id(e)][1]:
+                return ('save-moves-element', 'save under %s changed the tag of an existing element from %s to %s' % (uri, before[id(e)][1], e.tag))
+        elif isinstance(e.tag, str) and not e.tag.startswith('{%s}' % uri):
+            return ('save-new-element-ns', 'save under %s created the element %s outside the document namespace' % (uri, e.tag))
+    return None
+
+
 def run(ctx):
     ctx.rule = ('documents from vlib/docgen.py (all libraries, animations, foreign-namespace extras, permuted libraries), controller documents from the C19 '
                 'generator (skins with Name/IDREF joints, morphs, malformed variants) and damaged documents (dangling reference + non-numeric token); each '
@@ -160,6 +218,13 @@ def run(ctx):
         if res and res[0] not in reported:
             reported.add(res[0])
             ctx.violation('c15:' + res[0], res[1], dict(rep, uri=uri, prefixed=prefixed))
+        if label == 'docgen' and b'</COLLADA>' in data:
+            res = save_keeps_namespaces(data, uri)
+            if res != 'skip':
+                ctx.count('save:namespaces-kept')
+                if res and res[0] not in reported:
+                    reported.add(res[0])
+                    ctx.violation('c15:' + res[0], res[1], dict(rep, uri=uri, kind2='save-ns'))
         if label == 'docgen' and b'<spline' not in data:
             import collada
             try:
@@ -169,6 +234,32 @@ def run(ctx):
                 want.append('own=%s renamed=%s' % (ids, ids))
             except Exception:
                 pass
+    # Collada._retagNamespace and the wrapper of save against renameNs / saveNs of the model
+    import collada
+    rl, rw = [], []
+    for i in range(ctx.n(300, 6000)):
+        toks, root = retag_case(ctx.rng)
+        a, b = ctx.rng.sample(NSPOOL + ['nsNEW'], 2)
+        d = collada.Collada()
+        d.xmlnode = ET.ElementTree(root)
+        if i % 2 == 0:
+            rl.append('retag %s %s ; %s' % (a, b, ' '.join(toks)))
+            d._retagNamespace(a, b)
+            rw.append(ns_order(root))
+        else:
+            # the wrapper with a save that changes nothing: park the default namespace, move, move back, unpark
+            rl.append('nssave nsD parked ; %s' % ' '.join(toks))
+            doc_ns = root.tag[1:].split('}')[0]
+            if doc_ns != 'nsD':
+                d._retagNamespace('nsD', 'parked'); d._retagNamespace(doc_ns, 'nsD'); d._retagNamespace('nsD', doc_ns); d._retagNamespace('parked', 'nsD')
+            rw.append(ns_order(root))
+    if ctx.lean_ok and rl:
+        for l, w, m in zip(rl, rw, ctx.driver('C15', rl)):
+            ctx.count('kernel:' + l.split()[0])
+            if m != w and 'corr:retag' not in reported and not any(v['found_input'] for v in ctx.violations):
+                reported.add('corr:retag')
+                ctx.violation('corr:retag', 'Collada._retagNamespace and Pyc.Ns.renameNs disagree on %r: model %r, implementation %r' % (l[:200], m, w),
+                              dict(kind='kernel', line=l), found_input=False)
     if ctx.lean_ok and lines:
         for l, w, m in zip(lines, want, ctx.driver('C15', lines)):
             ctx.count('kernel:tree')
